@@ -112,7 +112,10 @@ type histOpts struct {
 	expIn  int
 	noRT   bool
 	rotate bool // the provider issues a new refresh token with every refresh
-	faults map[int]string
+	// fullMeta: the discovery document lists everything a provider usually publishes, not only what this service uses
+	fullMeta    bool
+	authMethods []string
+	faults      map[int]string
 	// methods is what the provider's discovery document advertises as code_challenge_methods_supported
 	methods []string
 }
@@ -135,6 +138,10 @@ func genHistOpts(c *sim.Case) histOpts {
 	if ho.o.Discovery {
 		ho.methods = [][]string{nil, {"S256"}, {"plain", "S256"}, {"S256", "plain"}, {"plain"}}[sim.Pick(c, "pkce-methods", 5)]
 	}
+	if ho.o.Discovery {
+		ho.fullMeta = sim.Bool(c, "full-provider-metadata")
+		ho.authMethods = [][]string{nil, {"client_secret_post"}, {"client_secret_post", "client_secret_basic"}, {"private_key_jwt", "client_secret_basic"}}[sim.Pick(c, "announced-auth-methods", 4)]
+	}
 	if ho.o.Discovery && sim.Weighted(c, "explicit-endpoints-too", 2, 1) == 1 {
 		ho.o.DiscoveryExplicit = true
 	}
@@ -148,6 +155,8 @@ func (ho histOpts) build(c *sim.Case, mons ...monitor) *H {
 	w := sim.NewWorld(c, ho.o)
 	w.IdP.IDTTL = ho.idTTL
 	w.IdP.ChallengeMethods = ho.methods
+	w.IdP.FullMetadata = ho.fullMeta
+	w.IdP.AuthMethods = ho.authMethods
 	w.IdP.Default = &sim.Behaviour{Name: "default", ExpiresIn: ho.expIn, NoExpiresIn: ho.expIn == 0, NoRefresh: ho.noRT, Rotate: ho.rotate}
 	for k, v := range ho.faults {
 		w.Faults[k] = v
